@@ -197,19 +197,30 @@ func runC03(r *R) {
 			if side { // equal on true side → mismatch on false side
 				mis = sumIf.Block().Succs[1]
 			}
-			okBad := false
+			okBad, foundBad := true, false
+			isBad := func(v ssa.Value) bool {
+				g, ok := LoadedGlobal(Resolve1(v))
+				return ok && g == kcl+".BadChecksum"
+			}
 			for _, ret := range Returns(fn) {
-				errv := ret.Results[len(ret.Results)-1]
+				errv := returnDirect(ret, ret.Results[len(ret.Results)-1])
+				if ret.Block() == mis || mis.Dominates(ret.Block()) {
+					// the mismatch arm returns on its own (`return n, BadChecksum`)
+					foundBad = true
+					okBad = okBad && isBad(errv)
+					continue
+				}
 				if p, ok := Strip(errv).(*ssa.Phi); ok {
 					for i, e := range p.Edges {
 						pred := p.Block().Preds[i]
 						if pred == mis || mis.Dominates(pred) {
-							g, ok := LoadedGlobal(e)
-							okBad = ok && g == kcl+".BadChecksum"
+							foundBad = true
+							okBad = okBad && isBad(e)
 						}
 					}
 				}
 			}
+			okBad = okBad && foundBad
 			// the data hashed is the data returned: Hash.Write(p[:n]) with n = Reader.Read's count
 			okWrite := false
 			for _, c := range CallsMatching(fn, func(n string, c *ssa.CallCommon) bool { return bareName(n) == "Write" && c.IsInvoke() }) {
